@@ -81,6 +81,9 @@ THEOREMS = {
     "C08_model_is_source_prec_V2_step": "same for _prec_V2_step (matrix / vector draws, eta2 broadcast over the rows, column sums, C[:, None]) when V2, phi2 are n_drugdoses x D and eta2 has D entries",
     "C08_model_is_source_prec_V1_step": "same for _prec_V1_step",
     "C08_model_is_source_prec_W_step": "translation of the WHOLE _prec_W_step with mult_gamma_proc = True (W**2 once, component 0 with shape 2 + n_clines*D/2, the loop over d in range(1, D) with the slices cumprod(gam)[d:] / gam[d] and parssq[:, d:], shape 3 + n_clines*(D-d)/2, rate 1 + sum/2 + 1e-3, gam[d] stored before the next component reads it, tau = cumprod(gam), clip) = the model's program, when W is n_clines x D, gam has D entries, D > 0",
+    "C08_model_is_source_update": "translation of the WHOLE _update on the object's observation store (four lists, three defaultdict(list) index dicts): if the store represents the model's data (lists equal, every dict lists for every key the observation numbers with that key in insertion order - what the block links' index primitive reads) then after _update(y, cl, dd1, dd2) it represents the data extended by that row",
+    "C08_model_is_source_update_empty": "the empty store (as __init__ leaves it) represents the empty data",
+    "C08_model_is_source_encode_obs": "translation of encode_obs on a store that represents d returns (d_y, d_cl, d_dd1, d_dd2) - the block links' encode_obs primitive",
     "C08_model_is_source_reconstruct_Mu": "translation of the WHOLE _reconstruct_Mu(clip) (early return without data, W[cline] * get(V2,dd1) * get(V2,dd2) and W[cline] * (get(V1,dd1) + get(V1,dd2)) summed over the last axis, alpha + W0[cline] + get(V0,dd1) + get(V0,dd2), the optional clip) = the model's reconstruct_Mu, when the four observation arrays have equal length and W, V2, V1 have D columns",
     "C08_model_is_source_W_step": "translation of the WHOLE _W_step (loop over range(n_clines), prior-only branch N(0, diag 1/tau), design rows get(V2,dd1)*get(V2,dd2) + get(V1,dd1) + get(V1,dd2), old contribution X @ W[c], residual, mu_part = Xt @ resid * prec, Q = Xt @ X * prec with tau added on the diagonal, try/except around sample_mvn_from_precision (a raising call leaves the state unchanged), store, Mu[cidx] += X @ W[c] - old) = the model's sequence of W blocks, when W has n_clines rows and V2, V1 are n_drugdoses x D",
     "C08_model_is_source_V2_step": "translation of the WHOLE _V2_step (both slices, design rows W[cline] * get(V2, other treatment), empty-slice branches, concatenations, prior phi2[m] * eta2, Q[dix] += phi2[m] * eta2, try/except, store, Mu[idx] += ...) = the model's sequence of V2 blocks, when V2 has n_drugdoses rows, W is n_clines x D, phi2 is n_drugdoses x D, eta2 has D entries",
@@ -112,7 +115,7 @@ EXPLANATION = ("Model: Model/Gibbs.v (sampler as a program of draws), Model/Mvn.
                "V0/V2/V1 draws are not the full conditional and Mu is stale for the rest of the sweep (signature "
                "self-combination-row-stale-cache; C08_cache_refuted); (2) recorded, not failed: with no observation at all _prec_obs_step "
                "draws Gamma(a0, b0) without the 1e-3 jitter and without clipping (C08_prec_unclipped_without_data_refuted). "
-               "Source-translation links (C08_model_is_source_*): the methods mcmc_step, n_obs, get, _reconstruct_Mu, _alpha_step, _prec_obs_step, "
+               "Source-translation links (C08_model_is_source_*): the methods mcmc_step, n_obs, _update, encode_obs, get, _reconstruct_Mu, _alpha_step, _prec_obs_step, "
                "_prec_W0_step, _W0_step, _V0_step, _W_step, _V2_step, _V1_step, _prec_V0_step, _prec_V2_step, _prec_V1_step, _prec_W_step of LegacySparseDrugComboImpl are re-translated from the source on every run "
                "(harness/py2gal.py, configurations C08_* of harness/src_functions.py -> Generated/SrcGibbs.v) as programs in the free monad "
                "over the model's draws (a draw call is a node carrying its arguments, the method continues with the drawn value) and proved "
@@ -136,8 +139,9 @@ EXPLANATION = ("Model: Model/Gibbs.v (sampler as a program of draws), Model/Mvn.
                "(C[:, None]), a.copy(), ix == -1, np.where(mask)[0], A[positions] = 0.0, the empty (0, D) matrix, warnings.warn ignored. "
                "numpy's IndexError / shape errors are not represented: the links carry shape facts of reachable states as hypotheses. "
                "Loops, branches, early returns, the order of reads / draws / stores and all arithmetic structure come from the "
-               "translation. Not linked: _update / encode_obs / reset_model (the index-dict primitive above is what _update maintains), "
-               "the non-default option branches (translated, not modelled), and a closed composite of the sweep (the block links carry "
+               "translation. _update / encode_obs are linked on the object's observation store (C08_model_is_source_update: the index-dict "
+               "primitive above is an invariant _update maintains; defaultdict(list) = association list, a missing key reads []). Not linked: "
+               "reset_model, __init__, the non-default option branches (translated, not modelled), and a closed composite of the sweep (the block links carry "
                "shape hypotheses that arbitrary-length drawn values do not preserve).")
 
 STEP_NAMES = ["_reconstruct_Mu", "_alpha_step", "_W0_step", "_V0_step", "_W_step", "_V2_step", "_V1_step",
